@@ -20,7 +20,7 @@ from vcore.obl import Obl, DISCHARGED, REFUTED, UNDECIDED, ERROR, smt_decider
 GENMOD = "pyab_experiment.codegen.python.python_generator"
 GFN = GENMOD + ":PythonCodeGen."
 CMP_OPS = ["EQ", "NE", "GT", "GE", "LT", "LE", "NOT_IN", "IN"]
-STR_POOL = ["abc", "it's", 'say "hi"', "C:\\temp", "", "02134", "caf\u00e9", "'+str(print('PWNED'))+'", "a\\", "{x}", "%s", "\\n", "inf", "1e5", "'", '"""', "\\'"]
+STR_POOL = ["abc", "it's", 'say "hi"', "C:\\temp", "", "02134", "caf\u00e9", "'+str(print('PWNED'))+'", "a\\", "{x}", "%s", "\\n", "inf", "1e5", "'", '"""', "\\'", "\U0001F680", " x ", "x" * 40]
 INT_POOL = [0, 18, -5, 9007199254740993, 10 ** 30]
 FLOAT_POOL = [1.5, -0.25, 0.1, 1e22, 3.4]
 TUPLE_POOL = [(1, 2, 3), ("a",), (1, [2, 3]), ("it's", -1.5), (T.IdentObj("x"), 1), ((1,),), (1, [2, [3, "z"]])]
